@@ -220,6 +220,11 @@ class DuckMolecule:
         self.n_active_ab_electrons = ((n_electrons + spin) // 2, (n_electrons - spin) // 2)
         self.solver = None
         self.frozen_orbitals = None
+        # totals of the WHOLE molecule (one frozen doubly-occupied orbital below the active space): an ansatz must read the active values
+        self.n_electrons = n_electrons + 2
+        self.n_mos = n_mos + 1
+        self.n_sos = 2 * (n_mos + 1)
+        self.n_min_orbitals = n_mos + 1
 
 
 def h_pool(env, n_orbs, utd, canary=False):
